@@ -1,5 +1,5 @@
 (* Every block-layer function of the model preserves every predicate with [frame_ok]. *)
-From Rimu Require Import Base Regex RegexParse Str Types Tables Guards State Inline Block Frame.
+From Rimu Require Import Base Regex RegexParse Str Types Tables Guards State Inline Block LowerCase Frame.
 From Coq Require Import Lia.
 Local Open Scope monad_scope.
 
@@ -45,7 +45,7 @@ Proof.
   unfold injectHtmlAttributes. destruct tag; [apply pres_ret|]. pr; try (pres_mod HP; fail).
   all: apply pres_modify; intros sx Hsx; unfold register_or_report;
     match goal with |- P (if ?c then _ else _) => destruct c eqn:Ec end; fo HP;
-    apply orb_false_iff in Ec as [_ Ec]; apply fo_ids_cons; auto.
+    apply orb_false_iff in Ec as [_ Ec]; apply fo_ids_cons; auto; apply lower_idem.
 Qed.
 
 Lemma pres_macros_setValue name value : preserves P (macros_setValue name value).
